@@ -198,3 +198,47 @@ def k_tree(src: Path, parse) -> str:
         "other.weights))` — the weights are passed in the order of the trees -/",
         f"def treeCountAligned : Bool := {'true' if (count_ok and empty_zero and first) else 'false'}",
         ""])
+
+
+def k_glue(src: Path, parse) -> str:
+    """small glue with a meaning: the number of workers (utils/parallel.get_size, _num_processes: C05 C06), the route from pair
+    counts to a redshift estimate (RedshiftData.from_corrfuncs: C04), normalised count arrays and `sum()` support (C17)"""
+    tp = parse(src, "yaw/utils/parallel.py")
+    gs = [ast.unparse(x) for x in _strip_doc(find_function(tp, "get_size").body)]
+    if gs != ["if use_mpi():\n    size = comm.Get_size()\nelse:\n    size = _num_processes()", "max_workers = max_workers or size",
+              "return min(max_workers, size)"]:
+        raise Untranslatable("get_size", "changed")
+    npb = [ast.unparse(x) for x in _strip_doc(find_function(tp, "_num_processes").body)]
+    if npb != ["system_threads = _get_physical_cores()",
+               "try:\n    num_threads = int(os.environ['YAW_NUM_THREADS'])\n    return min(num_threads, system_threads)\n"
+               "except KeyError:\n    return system_threads"]:
+        raise Untranslatable("_num_processes", "changed")
+    tr = parse(src, "yaw/redshifts.py")
+    fc = [ast.unparse(x) for x in _strip_doc(find_function(tr, "RedshiftData.from_corrfuncs").body)]
+    fc_ok = fc == ["if ref_corr is not None:\n    cross_corr.is_compatible(ref_corr, require=True)",
+                   "if unk_corr is not None:\n    cross_corr.is_compatible(unk_corr, require=True)",
+                   "cross_data = cross_corr.sample()", "ref_data = ref_corr.sample() if ref_corr else None",
+                   "unk_data = unk_corr.sample() if unk_corr else None", "return cls.from_corrdata(cross_data, ref_data, unk_data)"]
+    tpc = parse(src, "yaw/correlation/paircounts.py")
+    ga = [ast.unparse(x) for x in _strip_doc(find_function(tpc, "NormalisedCounts.get_array").body)]
+    ga_ok = ga == ["counts = self.counts.get_array()", "sum_weights = self.sum_weights.sample_patch_sum()",
+                   "return counts / sum_weights.data[:, np.newaxis, np.newaxis]"]
+    radd = ["if np.isscalar(other) and other == 0:\n    return self", "return self.__add__(other)"]
+    radd_ok = all([ast.unparse(x) for x in _strip_doc(find_function(tpc, q).body)] == radd
+                  for q in ("NormalisedCounts.__radd__", "PatchedCounts.__radd__"))
+    return "\n".join([
+        "/-- `_num_processes()`: the value of YAW_NUM_THREADS (if set) capped by the number of physical cores -/",
+        "def numProcesses (envThreads : Option Int) (cores : Int) : Int :=",
+        "  match envThreads with | some t => min t cores | none => cores",
+        "/-- `get_size(max_workers)`: `max_workers or size` (None and 0 mean: no limit), capped by the size of the pool / communicator -/",
+        "def getSize (maxWorkers : Option Int) (size : Int) : Int :=",
+        "  let mw := match maxWorkers with | some m => if m = 0 then size else m | none => size",
+        "  min mw size",
+        "/-- `RedshiftData.from_corrfuncs`: compatibility of the given correlation functions is required, each is sampled, and "
+        "(cross, ref, unk) go to `from_corrdata` in this order -/",
+        f"def fromCorrfuncsAsModelled : Bool := {'true' if fc_ok else 'false'}",
+        "/-- `NormalisedCounts.get_array` = counts divided by the summed weight product of the bin -/",
+        f"def normalisedArrayAsModelled : Bool := {'true' if ga_ok else 'false'}",
+        "/-- `0 + x` returns x (so that `sum()` works), anything else goes through the checked `__add__` -/",
+        f"def raddAsModelled : Bool := {'true' if radd_ok else 'false'}",
+        ""])
